@@ -48,6 +48,8 @@ class CUSUM(StreamingDetector):
                   direction. Defaults to ``None``.
         """
         super().__init__()
+        # univariate detector: the width of valid input is known up front
+        self._input_col_dim = 1
         self.target = target
         self.sd_hat = sd_hat
         self.burn_in = burn_in
